@@ -1,5 +1,5 @@
 CONSTANTS
-  Bug = "none"
+  Bugs = {"none"}
   MaxN = 64
   R = 12
   FFTLens = {1, 2, 3, 4, 6, 8, 9, 12, 15, 16}
